@@ -20,9 +20,11 @@
           6 model out of fuel (infinite recursion)
           7 malformed case (tree not well formed)
           8 the document could not be built (construction panicked)
+         10 the history agrees but the document is outside the typing hypotheses of
+            C04_get_total (wt_tree: a validator postcondition does not hold)
           9 the implementation panicked and so does the model (C04_get_total says the
             model does not: the case is outside its hypotheses, e.g. ill-typed) *)
-From Verif Require Export Css.Defaulting Css.DefaultingSpec.
+From Verif Require Export Css.Defaulting Css.DefaultingSpec Css.DefaultingTyping.
 From Coq Require Import QArith ZArith NArith List String Bool.
 Import ListNotations.
 Open Scope N_scope.
@@ -97,7 +99,11 @@ Definition check_tab (c : tab) : bool :=
 
 Definition check (c : case) : N :=
   match c with
-  | CDoc t ops => if wf_tree t then run_hist t empty_styles ops else 7
+  | CDoc t ops =>
+      if wf_tree t then
+        let k := run_hist t empty_styles ops in
+        if (k =? 0) && negb (wt_tree t) then 10 else k
+      else 7
   | CBuildPanic => 8
   | CTables l => if forallb check_tab l then 0 else 5
   end.
